@@ -163,6 +163,54 @@ pub fn drive(args: &HashMap<String, String>) {
             }
         }
     }
+    if profile == "ladder" {
+        // DestructureLadder: every name of every small destructuring shape, for a function and for an inline function,
+        // the argument being a parameter of the program (one shape at the first and one at the second position)
+        use crate::ast::{Expr, Helper, Pat};
+        let pv = |n: &str| Pat::Var(n.to_string());
+        let shapes: Vec<(Pat, Vec<&str>)> = vec![
+            (Pat::list(vec![pv("A"), pv("B"), pv("C")], Pat::Nil), vec!["A", "B", "C"]),
+            (Pat::list(vec![Pat::list(vec![pv("A"), pv("B")], Pat::Nil), pv("C")], Pat::Nil), vec!["A", "B", "C"]),
+            (Pat::list(vec![pv("A"), pv("B")], pv("C")), vec!["A", "B", "C"]),
+            (Pat::list(vec![pv("A"), Pat::list(vec![pv("B"), pv("C")], Pat::Nil)], Pat::Nil), vec!["A", "B", "C"]),
+            (Pat::Cons(Box::new(Pat::Cons(Box::new(pv("A")), Box::new(pv("B")))), Box::new(pv("C"))), vec!["A", "B", "C"]),
+            (Pat::list(vec![Pat::list(vec![pv("A"), pv("B"), pv("C")], Pat::Nil), pv("D")], Pat::Nil), vec!["A", "B", "C", "D"]),
+            (Pat::list(vec![pv("A"), Pat::list(vec![pv("B"), pv("C"), pv("D")], Pat::Nil)], Pat::Nil), vec!["A", "B", "C", "D"]),
+            (Pat::list(vec![pv("A"), pv("B"), pv("C"), pv("D")], pv("E")), vec!["A", "B", "C", "D", "E"]),
+        ];
+        fn witness(p: &Pat, k: &mut i64) -> V {
+            match p {
+                Pat::Nil => V::nil(),
+                Pat::Var(_) | Pat::At(_, _) => {
+                    *k += 1001;
+                    V::int(*k)
+                }
+                Pat::Cons(a, b) => {
+                    let l = witness(a, k);
+                    let r = witness(b, k);
+                    V::cons(l, r)
+                }
+            }
+        }
+        for (shape, names) in shapes {
+            for second in [false, true] {
+                // (proper lists only: a classic inline function is a macro, its dotted tail receives argument *forms*)
+                let fpat = if second { Pat::list(vec![pv("X"), shape.clone()], Pat::Nil) } else { Pat::list(vec![shape.clone(), pv("X")], Pat::Nil) };
+                let mut k = 0;
+                let arg = witness(&shape, &mut k);
+                let envs = vec![V::list(&[arg.clone(), V::int(77)]), V::list(&[V::int(5), V::int(6)])];
+                for name in names.iter() {
+                    for inline in [false, true] {
+                        let call_args = if second { vec![Expr::Var("Q".into()), Expr::Var("P".into())] } else { vec![Expr::Var("P".into()), Expr::Var("Q".into())] };
+                        let p = Program { args: Pat::list(vec![pv("P"), pv("Q")], Pat::Nil),
+                            helpers: vec![Helper::Defun { name: "pick".into(), pat: fpat.clone(), body: Expr::List(vec![Expr::Var(name.to_string()), Expr::Var("X".into())]), inline }],
+                            body: Expr::Call("pick".into(), call_args, None) };
+                        progs.push((p, envs.clone()));
+                    }
+                }
+            }
+        }
+    }
     for i in 0..(if profile == "ladder" { 0 } else { n }) {
         // alternate small / full programs
         g.o = if i % 3 == 0 { let mut o = gen_opts(profile); o.depth = 2; o.max_helpers = 2; o } else { gen_opts(profile) };
@@ -433,7 +481,7 @@ fn cse_tree_to_expr(t: &Value) -> crate::ast::Expr {
     match t[0].as_str().unwrap() {
         // the repeated subexpression: fails when X is an atom, a 32-byte hash otherwise
         "E" => Expr::Prim(11, vec![Expr::Prim(5, vec![Expr::Prim(5, vec![v("X")])]), Expr::Lit(V::int(1))]),
-        "K" => Expr::Lit(V::int(100 + t[1].as_i64().unwrap())),
+        "K" => Expr::Lit(V::int(101)),
         "g" => v(&format!("G{}", t[1].as_i64().unwrap())),
         "if" => Expr::If(Box::new(cse_tree_to_expr(&t[1])), Box::new(cse_tree_to_expr(&t[2])), Box::new(cse_tree_to_expr(&t[3]))),
         other => panic!("unknown tree node {other}"),
@@ -493,8 +541,10 @@ pub fn replay_cse(args: &HashMap<String, String>) {
             let want = match row["out"].as_str().unwrap() {
                 "fail" => continue,
                 "E" => e_val.clone(),
-                "K1" => V::int(101),
-                _ => V::int(102),
+                "K" => V::int(101),
+                "t" => V::int(1),
+                "n" => V::nil(),
+                other => panic!("unknown outcome {other}"),
             };
             rep.count("rows_compared");
             rep.nontrivial(&format!("{}|{}", v["tree"], i));
